@@ -18,7 +18,10 @@ if os.path.realpath(REPO) != os.path.realpath("/repo"):
     # a scratch tree (mutant trial): use a private copy of the Lean project so that the regenerated
     # constants of that tree never touch the project the registered commands build
     _priv = "/tmp/fast_ticc_verif_lean_" + hashlib.sha1(os.path.realpath(REPO).encode()).hexdigest()[:12]
-    subprocess.run(["rsync", "-a", "--delete", LEAN_DIR + "/", _priv + "/"], check=True)
+    import fcntl
+    with open(_priv + ".lock", "w") as _lk:          # parallel trials on the same scratch tree share the copy
+        fcntl.flock(_lk, fcntl.LOCK_EX)
+        subprocess.run(["rsync", "-a", "--exclude", ".lake/audit_*", LEAN_DIR + "/", _priv + "/"], check=True)
     LEAN_DIR = _priv
     OUT_DIR = "/tmp/fast_ticc_verif_out_" + hashlib.sha1(os.path.realpath(REPO).encode()).hexdigest()[:12]
 else:
